@@ -30,6 +30,29 @@ def answer (toks : List String) : String :=
       if ctorAliasesUnedited StructC06.ctorAliases StructC06.fieldEdits then "1" else "0"
   | ["ctoroffenders"] => let o := ctorOffenders StructC06.ctorAliases StructC06.fieldEdits
       if o.isEmpty then "-" else join o ","
+  | ["aok"] => if StructC06.attrTables.all (fun c => attrTableOK c.2) then "1" else "0"
+  | ["aoffenders"] =>
+      let o := StructC06.attrTables.flatMap fun c => (attrOffenders c.2).map fun m => c.1 ++ "." ++ m
+      if o.isEmpty then "-" else join o ","
+  | ["arun", cls, qs, reps, links] =>
+      -- a query chain on one object: per query whether it observes something else than on a
+      -- fresh object, then the attribute store left behind (slots in order of first appearance).
+      -- Generating expressions are compared through `reps` (expressions with equal values on
+      -- this object share a representative; 999 = not evaluable)
+      match StructC06.attrTables.lookup cls with
+      | none => "no-table"
+      | some tbl0 =>
+        -- links = 0: the object has no links, nothing is ever stored (`linkless`)
+        let tbl := if links == "0" then linkless tbl0 else tbl0
+        let names := splitTok qs ","
+        let rl := nats reps
+        let rep (g : Nat) : Nat := rl.getD g g
+        let obs := arun tbl AState.init names
+        let fin := showSlots (afinal tbl AState.init names)
+        let flags := (names.zip obs).map fun p =>
+          if p.2.map (Option.map rep) == (afresh tbl p.1).map (Option.map rep) then "0" else "1"
+        join flags "," ++ " | " ++
+          (if fin.isEmpty then "-" else join (fin.map fun p => p.1 ++ "=" ++ toString (rep p.2)) ";")
   | ["run", n, pairs, qs] =>
       showBools (run (mkTable n.toNat! (parsePairs pairs)) 4 State.init (nats qs))
   | _ => "bad-request"
